@@ -10,7 +10,7 @@ AMBIG = ["assumed:ValueError:arrow-pattern ambiguity (C03/C15 known finding)"]
 
 
 def run(ctx):
-    ctx.functions += ["scope_utils._build_scopes_from_headers_and_blocks/_find_scope_blocks_indices/_get_nearest_block/fold_scopes/filter_scopes_nested_functions/unfold_scopes/_scope_tokens", "Scanner.scan_file", "Scanner._analyze_file", "Header.sort_headers", "TokenRange.*"]
+    ctx.functions += ["scope_utils._build_scopes_from_headers_and_blocks/_find_scope_blocks_indices/_get_nearest_block/fold_scopes/filter_scopes_nested_functions/unfold_scopes/_scope_tokens", "Scanner.scan_file", "Scanner._analyze_file", "lexer_utils.lex / source_utils.get_newline_indices (position bookkeeping)", "Header.sort_headers", "TokenRange.*"]
     ctx.bounds["pairing units"] = "<= 2 header ranges and <= 3 block ranges, endpoints any integers (unbounded), every ordering and nesting the solver can choose"
     ctx.assumptions += ["upstream contract for the pairing units: headers non-empty, ordered, disjoint; blocks >= 2 tokens, sorted by opener, properly nested or disjoint; a header never straddles a block boundary",
                         "S-lex as in C03 for the soups"]
@@ -23,6 +23,10 @@ def run(ctx):
             jobs.append(Job("c05.py", "h_scopes", {"nest": nest, "nh": nh, "nb": nb}, T, 30, tag=f"nest={nest},headers={nh},blocks={nb}", meta={"twin": nh == 2 and nb == 2}))
         jobs.append(Job("c05.py", "h_scopes", {"nest": nest, "nh": 2, "nb": 2, "own": True, "ntok": 8 if ctx.quick() else 10}, T, 30, tag=f"nest={nest},own-tokens", meta={"twin": False}))
     jobs.append(Job("c05.py", "h_loc", {}, T, 30, tag="k<=3"))
+    # line numbers are only "within the file" if lexing maps offsets to lines faithfully: the unit contracts of the position bookkeeping (shared with C16)
+    jobs.append(Job("c16.py", "h_newlines", {}, T, 30, tag="newline offsets / location_to_index, |code|<=4"))
+    for K in (1, 2):
+        jobs.append(Job("c16.py", "h_lex", {"K": K, "fixed_kind": True}, T, 30, tag=f"token positions K={K}", meta={"sigtag": "lex"}))
     # quick: one language per block style / header style (C, C++ and C# share all pairing code; TypeScript shares JavaScript's arrow pattern); thorough: all seven, N=3
     plan = {l: 2 for l in ("Python", "JavaScript")} if ctx.quick() else {l: 3 for l in ("Python", "C", "JavaScript", "Java", "TypeScript", "Cpp", "CSharp")}
     jobs += soup_common.soup_jobs(ctx, "wellformed", plan, framed=True, tolerate=AMBIG)
